@@ -33,7 +33,7 @@ def scopes(chk):
     common = {'ComPool': [], 'Seps': [''], 'VerbNames': [], 'ListNames': ['itemize'], 'Labels': [''], 'ExtraQueries': ['a', 'cup', 'math', 'displaymath', '$', '$$']}
     sc = []
     p = dict(common)
-    p.update({'Budget': 3 if quick else 5, 'TextPool': ['t', '\\$', ' ', 't\\\\'], 'MathTextPool': ['x', '(', ')[(', '[0,1)', ']', 'a\\$b', '\\$', 'x\\\\'],
+    p.update({'Budget': 3 if quick else 4, 'TextPool': ['t', '\\$', ' ', 't\\\\'], 'MathTextPool': ['x', '(', ')[(', '[0,1)', ']', 'a\\$b', '\\$', 'x\\\\'],
               'CmdNames': ['a'], 'EnvNames': ['e'], 'MathKinds': KINDS, 'MEnvNames': ['equation', 'align*'],
               'Leaves': [cmd0('cup'), cmd0('in'), DEF_MATH, DEF_MATH2], 'MaxSib': 2, 'MaxArgs': 1, 'MaxDepth': 3})
     sc.append(('bodies', p))
@@ -53,7 +53,7 @@ def scopes(chk):
               'MathKinds': KINDS, 'MEnvNames': ['gather'], 'Leaves': [cmd0(z) for z in ZERO], 'MaxSib': 3, 'MaxDepth': 3})
     sc.append(('operators', p))
     p = dict(common)
-    p.update({'Budget': 3 if quick else 5, 'TextPool': ['t', ' '], 'MathTextPool': ['x'], 'CmdNames': ['a'], 'EnvNames': ['e'], 'MathKinds': KINDS,
+    p.update({'Budget': 3 if quick else 4, 'TextPool': ['t', ' '], 'MathTextPool': ['x'], 'CmdNames': ['a'], 'EnvNames': ['e'], 'MathKinds': KINDS,
               'MEnvNames': ['equation'], 'Leaves': [], 'MaxSib': 3, 'MaxArgs': 1, 'MaxDepth': 3})
     sc.append(('contexts', p))
     return sc
